@@ -25,6 +25,7 @@ sb <bbn pn> <key>                           → some <i> <leaf pn> | none   (`se
 lg <ln pn> <key>                            → some <0|1> <len>:<fnv> | none (`LeafNode::get`)
 reopen T <tracked.…> B <bump> N <pages>     → ok <branches> <fnv> | err …  (`reconstruct`, then a fresh `Tree`)
 recon  T <tracked.…> B <bump> N <pages>     → ok <branches> <fnv> | err dup | err pn | err bump | panic
+node <page hex> / sbn <key> / fkn <key> <low|-> → ok / some <i> <pn> | none / <0|1> <pos>   (hand-built node)
 ```
 -/
 namespace Nomt.Driver.BtD
@@ -39,6 +40,8 @@ structure BtSt where
   rtx2 : List (Nat × BtLookup.Index) := []
   ln : Std.HashMap Nat ByteArray := {}
   bbn : Std.HashMap Nat ByteArray := {}
+  /-- the hand-built node of the `node` / `sbn` / `fkn` lines -/
+  node : Option BtLookup.BNode := none
 
 def bitsOfNatKey (k : Nat) : Key := (List.range 256).map (fun i => k / 2 ^ (255 - i) % 2 == 1)
 
@@ -266,6 +269,30 @@ def btStep (s : BtSt) (line : String) : BtSt × String :=
           | .err _ => (s, "err")
           | .panic m => (s, s!"panic: {m}")
     | _, _ => (s, "parse error")
+  | ["node", hex] =>
+    match bytesOfHex hex with
+    | some pg =>
+      match BtLookup.decodeBNode pg with
+      | .ok nd => ({ s with node := some nd }, "ok")
+      | .error e => ({ s with node := none }, s!"undecodable {e}")
+    | none => (s, "parse error")
+  | ["sbn", k] =>
+    match s.node, natOfHexKey k with
+    | some nd, some (kn, _, _) =>
+      match BtLookup.searchBranch nd kn with
+      | .ok (some (i, p)) => (s, s!"some {i} {p}")
+      | .ok none => (s, "none")
+      | .err _ => (s, "err")
+      | .panic m => (s, s!"panic: {m}")
+    | _, _ => (s, "no node")
+  | ["fkn", k, low] =>
+    match s.node, natOfHexKey k with
+    | some nd, some (kn, _, _) =>
+      match BtLookup.findKeyPos nd kn (if low == "-" then none else low.toNat?) with
+      | .ok (f, p) => (s, s!"{if f then 1 else 0} {p}")
+      | .err _ => (s, "err")
+      | .panic m => (s, s!"panic: {m}")
+    | _, _ => (s, "no node")
   | ["recon", "T", t, "B", bump, "N", n] =>
     match parseNats t, bump.toNat?, n.toNat? with
     | some t, some bump, some n => (s, showRecon s (runRecon s t bump n))
